@@ -361,6 +361,24 @@ def sec_unary(ctx, rng, case):
     qs = cirq.LineQubit.range(n)
     tbo = cirq.trace_distance_bound(g.on(*qs))
     ctx.check(tbo >= exact - 1e-7, "trace_distance_bound>=exact", "C08:trace-distance-bound-op:" + name, "", **wit)
+    # the same through wrappers: a controlled gate / operation also has the eigenvalue 1 of the inactive control subspace, so a
+    # global phase of the target becomes a relative one
+    if n <= 2:
+        cv = int(rng.integers(2))
+        Uc = L.controlled(U, (2,), [(cv,)])
+        ang_c = np.sort(np.angle(np.linalg.eigvals(Uc)))
+        gaps_c = np.diff(np.concatenate([ang_c, [ang_c[0] + 2 * math.pi]]))
+        arc_c = 2 * math.pi - gaps_c.max()
+        exact_c = 1.0 if arc_c >= math.pi - 1e-12 else math.sin(arc_c / 2)
+        qc = cirq.LineQubit(n)
+        forms = [("controlled-gate", lambda: cirq.ControlledGate(g, control_values=[cv])),
+                 ("controlled-gate.on", lambda: cirq.ControlledGate(g, control_values=[cv]).on(qc, *qs)),
+                 ("op.controlled_by", lambda: g.on(*qs).controlled_by(qc, control_values=[cv])),
+                 ("tagged(op.controlled_by)", lambda: g.on(*qs).controlled_by(qc, control_values=[cv]).with_tags("t"))]
+        fname, mk = forms[int(rng.integers(len(forms)))]
+        tbc = cirq.trace_distance_bound(mk())
+        ctx.check(tbc >= exact_c - 1e-7, "trace_distance_bound>=exact", "C08:trace-distance-bound:%s" % fname,
+                  "trace_distance_bound(%s of %s) = %.6g < exact maximum trace distance %.6g" % (fname, name, tbc, exact_c), control_value=cv, **wit)
     pe = cirq.pauli_expansion(g, default=None)
     if pe is not None:
         M = np.zeros_like(U)
